@@ -3889,6 +3889,9 @@ def exist_added_packages(suppressed: list[str], manager: BuildManager) -> bool:
             continue
         if os.path.basename(path) in ("__init__.py", "__init__.pyi"):
             return True
+        if manager.fscache.isdir(path):
+            # A namespace package (a directory without an __init__ file).
+            return True
     return False
 
 
